@@ -27,6 +27,7 @@ func registerMatchers() {
 		"c09.index-noncanonical":   fIdxNonCanon,
 		"c09.index-nonenumerable":  fIdxEnum,
 		"c09.index-defineproperty": fDpNoThrow,
+		"c09.astral-case-mapping":  fAstralCase,
 	} {
 		run.RegisterMatcher(name, defectMatcher(fl))
 	}
